@@ -826,25 +826,21 @@ UStrata == IF Mode # "gen" THEN <<>> ELSE
       finds |-> SetToSeq({UFind(i, f, l, <<>>, <<>>) : i \in {"zerodiv", "nullPointer", "memleak", "a"}, f \in {"f0.c", "f1.c", "inc/h.h", "b"}, l \in {5, 7}})] >>
 
 \* verdict of a unit pair, from the same definitions as above; t = the id / file / line the suppression states
-\* (a text line is read by ParseText), idv / filev / symv = the pattern verdicts per finding id / file / symbol list
-UVerdictT(s, t, f, idv, filev, symv) ==
-  CASE s.type = "unique" -> And3({B3(idv[f.id]), filev[f.file], B3(t.line = 0 \/ t.line = f.line), B3(symv[f.syms])})
-    [] s.type = "file"   -> And3({B3(idv[f.id]), filev[f.file], B3(symv[f.syms])})         \* the line of the comment does not count
-    [] s.type = "block"  -> And3({B3(idv[f.id]), filev[f.file], B3(symv[f.syms]),
-                                  IF s.lb < f.line /\ f.line < s.le THEN "yes"
-                                  ELSE IF f.line < s.lb \/ f.line > s.le THEN "no" ELSE "open"})   \* the comment lines themselves
-    [] s.type = "macro"  -> IF ~(idv[f.id] /\ \E i \in 1..Len(f.macros) : f.macros[i] = s.macro) THEN "no"
-                            ELSE IF filev[f.file] = "yes" THEN B3(symv[f.syms]) ELSE "open"
+\* (a text line is read by ParseText); idm / fm / sm = the pattern verdicts of id, file and symbol
+UVerdictT(s, t, f, idm, fm, sm) ==
+  IF ~idm THEN "no"
+  ELSE CASE s.type = "unique" -> IF ~(t.line = 0 \/ t.line = f.line) \/ ~sm THEN "no" ELSE fm
+         [] s.type = "file"   -> IF ~sm THEN "no" ELSE fm                                 \* the line of the comment does not count
+         [] s.type = "block"  -> IF ~sm \/ f.line < s.lb \/ f.line > s.le THEN "no"
+                                 ELSE IF s.lb < f.line /\ f.line < s.le THEN fm
+                                 ELSE And3({fm, "open"})                                  \* the comment lines themselves
+         [] s.type = "macro"  -> IF ~(\E i \in 1..Len(f.macros) : f.macros[i] = s.macro) \/ ~sm THEN "no"
+                                 ELSE IF fm = "yes" THEN "yes" ELSE "open"
 
-\* the verdicts of one suppression against every finding of its stratum
-URowOf(st, s) ==
-  LET t     == IF s.via = "line" THEN ParseText(s.text) ELSE [id |-> s.id, file |-> s.file, line |-> s.line]
-      fs    == st.finds
-      idv   == TLCEval([x \in {fs[j].id : j \in 1..Len(fs)} |-> Glob(t.id, x)])
-      filev == TLCEval([y \in {fs[j].file : j \in 1..Len(fs)} |-> IF t.file = "" THEN "yes" ELSE FileMatch3(t.file, y)])
-      symv  == TLCEval([z \in {fs[j].syms : j \in 1..Len(fs)} |-> s.sym = "" \/ \E i \in 1..Len(z) : Glob(s.sym, z[i])])
-  IN [j \in 1..Len(fs) |-> UVerdictT(s, t, fs[j], idv, filev, symv)]
-UVerdict(s, f) == URowOf([finds |-> <<f>>], s)[1]
+UStated(s) == IF s.via = "line" THEN ParseText(s.text) ELSE [id |-> s.id, file |-> s.file, line |-> s.line]
+UFileV(pat, file) == IF pat = "" THEN "yes" ELSE FileMatch3(pat, file)
+USymV(pat, syms) == pat = "" \/ \E i \in 1..Len(syms) : Glob(pat, syms[i])
+UVerdict(s, f) == LET t == UStated(s) IN UVerdictT(s, t, f, Glob(t.id, f.id), UFileV(t.file, f.file), USymV(s.sym, f.syms))
 
 ASSUME Mode = "gen" =>
          /\ PrintT(<<"UNIT", [i \in 1..Len(UStrata) |-> Len(UStrata[i].sups) * Len(UStrata[i].finds)]>>)
@@ -854,7 +850,25 @@ ASSUME Mode = "gen" =>
 UCases == IF Mode = "judge" THEN ndJsonDeserialize(IOEnv.UCASES) ELSE <<>>
 UObs   == IF Mode = "judge" THEN ndJsonDeserialize(IOEnv.UOBS) ELSE <<>>
 UStratum(name) == CHOOSE i \in 1..Len(UCases) : UCases[i].name = name
-URows == IF Mode = "judge" THEN [i \in 1..Len(UObs) |-> TLCEval(URowOf(UCases[UStratum(UObs[i].st)], UCases[UStratum(UObs[i].st)].sups[UObs[i].s]))] ELSE <<>>
+\* the pattern verdicts are tabulated once per distinct (pattern, subject) of the strata
+UStatedAll == IF Mode # "judge" THEN <<>> ELSE TLCEval([k \in 1..Len(UCases) |-> [i \in 1..Len(UCases[k].sups) |-> UStated(UCases[k].sups[i])]])
+UAllSups  == UNION {{<<k, i>> : i \in 1..Len(UCases[k].sups)} : k \in 1..Len(UCases)}
+UAllFinds == UNION {ToSet(UCases[k].finds) : k \in 1..Len(UCases)}
+UIdTab   == IF Mode # "judge" THEN <<>> ELSE
+              TLCEval([p \in {UStatedAll[x[1]][x[2]].id : x \in UAllSups} |-> [y \in {f.id : f \in UAllFinds} |-> Glob(p, y)]])
+UFileTab == IF Mode # "judge" THEN <<>> ELSE
+              TLCEval([p \in {UStatedAll[x[1]][x[2]].file : x \in UAllSups} |-> [y \in {f.file : f \in UAllFinds} |-> UFileV(p, y)]])
+USymTab  == IF Mode # "judge" THEN <<>> ELSE
+              TLCEval([p \in {UCases[x[1]].sups[x[2]].sym : x \in UAllSups} |-> [y \in {f.syms : f \in UAllFinds} |-> USymV(p, y)]])
+URowAt(k, i) ==
+  LET s == UCases[k].sups[i]
+      t == UStatedAll[k][i]
+      fs == UCases[k].finds
+      idr == UIdTab[t.id]
+      fr  == UFileTab[t.file]
+      sr  == USymTab[s.sym]
+  IN [j \in 1..Len(fs) |-> UVerdictT(s, t, fs[j], idr[fs[j].id], fr[fs[j].file], sr[fs[j].syms])]
+URows == IF Mode = "judge" THEN [i \in 1..Len(UObs) |-> TLCEval(URowAt(UStratum(UObs[i].st), UObs[i].s))] ELSE <<>>
 UBadOf(i) ==
   LET o   == UObs[i]
       st  == UCases[UStratum(o.st)]
